@@ -3,6 +3,9 @@ import RegexVerif.Lemmas.Class
 import RegexVerif.Lemmas.ClassCanon
 import RegexVerif.Lemmas.ClassBuild
 import RegexVerif.Generated.Class
+import RegexVerif.Model.ClassQuery
+import RegexVerif.Lemmas.ClassQuery
+import RegexVerif.Generated.ClassQuery
 
 /-!
 C16 — character-class membership is exact set algebra.
@@ -297,5 +300,295 @@ example :
     let orbit : Nat → List Nat := fun i => if 97 ≤ i ∧ i ≤ 122 then [i - 32] else if 65 ≤ i ∧ i ≤ 90 then [i + 32] else []
     let c := Class.addCaseEquivalences sampleCat orbit (.minus { ranges := [(97, 122)] } (.leaf { ranges := [(98, 98)] }))
     memAlg sampleCat c 66 = false ∧ memAlg sampleCat c 98 = false ∧ memAlg sampleCat c 67 = true := by decide
+
+/-! ========================================================================================
+## The query functions (`Model/ClassQuery.lean`; leg Kq)
+
+The rewrites and the prefix analyses never ask only "is r a member": they ask `MayOverlap`, `Equals`,
+`IsSingleton`, `GetSetChars`, … .  Each theorem below states what an answer of the modelled function
+means for MEMBERSHIP (`memAlg`, which the theorems above tie to every lookup path).
+======================================================================================== -/
+
+/-- the constants of the source: the three category names are parameters (symbolic), the rune tables are the
+regenerated ones -/
+def srcConsts (space word nd : Nat) : Consts :=
+  { space := space, word := word, nd := nd, ecmaSpace := RegexVerif.Generated.ecmaSpace,
+    ecmaWord := RegexVerif.Generated.ecmaWord, ecmaDigit := RegexVerif.Generated.ecmaDigit,
+    whitespaceChars := RegexVerif.Generated.whitespaceChars }
+
+/-- a toy oracle for the examples: category 0 = {32}, category 1 = letters a-z, category 2 = digits 0-9 -/
+def toyCat : Nat → Nat → Bool := fun id ch =>
+  if id = 0 then ch == 32 else if id = 1 then decide (97 ≤ ch ∧ ch ≤ 122) else decide (48 ≤ ch ∧ ch ≤ 57)
+
+/-- **Facts regenerated from the source on every run (query functions).**  `knownDistinctSets` compares its
+first argument with `SpaceClass`/`ECMASpaceClass` and its second with
+`DigitClass`/`WordClass`/`ECMADigitClass`/`ECMAWordClass` (what `Class.knownDistinctSets` mirrors); these six
+constant classes are constructed as `Consts.*Class` constructs them; and the ECMAScript space table is
+disjoint from the ECMAScript word and digit tables (`TableFacts`). -/
+theorem query_constants_expected :
+    RegexVerif.Generated.knownDistinctFirst = ["SpaceClass", "ECMASpaceClass"] ∧
+    RegexVerif.Generated.knownDistinctSecond = ["DigitClass", "WordClass", "ECMADigitClass", "ECMAWordClass"] ∧
+    RegexVerif.Generated.categoryClasses =
+      [("WordClass", false, false, [RegexVerif.Generated.wordCategoryText]),
+       ("NotWordClass", true, false, [RegexVerif.Generated.wordCategoryText]),
+       ("SpaceClass", false, false, [RegexVerif.Generated.spaceCategoryText]),
+       ("NotSpaceClass", true, false, [RegexVerif.Generated.spaceCategoryText]),
+       ("DigitClass", false, false, ["Nd"]), ("NotDigitClass", false, true, ["Nd"])] ∧
+    (RegexVerif.Generated.oldStringClasses.filter (fun c => c.1 = "ECMASpaceClass" ∨ c.1 = "ECMAWordClass" ∨ c.1 = "ECMADigitClass")) =
+      [("ECMAWordClass", RegexVerif.Generated.ecmaWord, false), ("ECMASpaceClass", RegexVerif.Generated.ecmaSpace, false),
+       ("ECMADigitClass", RegexVerif.Generated.ecmaDigit, false)] ∧
+    ∀ s w n, TableFacts (srcConsts s w n) := by
+  refine ⟨by decide, by decide, by decide, by decide, fun s w n => ⟨?_, ?_⟩⟩
+  · show rangesDisjoint (fromOldString RegexVerif.Generated.ecmaSpace false).ranges (fromOldString RegexVerif.Generated.ecmaWord false).ranges = true
+    decide
+  · show rangesDisjoint (fromOldString RegexVerif.Generated.ecmaSpace false).ranges (fromOldString RegexVerif.Generated.ecmaDigit false).ranges = true
+    decide
+
+/-- the ECMAScript tables as classes: `\s` = 9-13, 32, 160, 5760, 8192-8202, 8232-8233, 8239, 8287, 12288, 65279 -/
+example : (fromOldString RegexVerif.Generated.ecmaSpace false).ranges =
+    [(9, 13), (32, 32), (160, 160), (5760, 5760), (8192, 8202), (8232, 8233), (8239, 8239), (8287, 8287), (12288, 12288), (65279, 65279)] ∧
+    (fromOldString RegexVerif.Generated.ecmaWord true).ranges = [(0, 47), (58, 64), (91, 94), (96, 96), (123, maxRune)] ∧
+    (fromOldString [0] false) = { ranges := [(0, maxRune)], anything := true } ∧
+    -- the sizing quirk: an odd-length text starting with 0, negated, leaves a zero range at the end
+    (fromOldString [0, 5, 9] true).ranges = [(5, 8), (0, 0)] := by decide
+
+/-- **`MayOverlap` is sound: a `false` answer means the two classes share no rune.**  For ALL pairs of
+classes (sorted range lists and truthful bitmaps, as every compiled class has): the inverse case (one
+negated, one not, everything else equal — `!set1.equals(set2, true)`), the table of known distinct classes
+(`\s` against `\d`/`\w`, default and ECMAScript — under the stated facts about the category oracle, which leg
+`Kq-facts` checks against Go's `unicode` tables over all code points, and the regenerated table facts), and
+the enumeration of the category-free side through `CharIn` of the other.  This is the side condition under
+which `canBeMadeAtomic` makes a set loop atomic in front of a set (C05: `loop_atomic_disjoint`). -/
+theorem mayOverlap_sound (cat : Nat → Nat → Bool) (k : Consts) (hk : OracleFacts cat k) (ht : TableFacts k)
+    (a b : Class) (ha : Class.RangesOk a) (hab : BitmapOk cat a) (hb : Class.RangesOk b) (hbb : BitmapOk cat b)
+    (h : mayOverlap cat k a b = false) (r : Nat) (hr : r ≤ maxRune) :
+    ¬ (memAlg cat a r = true ∧ memAlg cat b r = true) := by
+  unfold mayOverlap at h
+  split at h
+  · cases h
+  split at h
+  · cases h
+  simp only [] at h
+  split at h
+  · -- one negated, one not: everything else is equal
+    rename_i hneg
+    have he : Class.equalsGo a b true = true := by simpa using h
+    obtain ⟨_, _, h3, h4, _, h6⟩ := equalsGo_spec cat a b true he
+    rintro ⟨ma, mb⟩
+    rw [memAlg_split] at ma mb
+    simp only [Bool.and_eq_true] at ma mb
+    have hp : a.flat.pos cat r = b.flat.pos cat r := by simp [Flat.pos, h3, h4]
+    have hn : a.flat.neg ≠ b.flat.neg := by simpa [Class.isNegated] using hneg
+    have h1 := ma.1
+    have h2 := mb.1
+    simp only [Flat.memAlg, hp] at h1 h2
+    revert h1 h2 hn
+    cases b.flat.pos cat r <;> cases a.flat.neg <;> cases b.flat.neg <;> simp
+  · rename_i hneg
+    split at h
+    · cases h
+    rename_i hna
+    have hna' : a.flat.neg = false := by simpa [Class.isNegated] using hna
+    have hnb' : b.flat.neg = false := by
+      have : a.flat.neg = b.flat.neg := by simpa [Class.isNegated] using hneg
+      rw [← this]; exact hna'
+    split at h
+    · -- the table of known distinct classes
+      rename_i hkd
+      rw [Bool.or_eq_true] at hkd
+      rcases hkd with hkd | hkd
+      · exact knownDistinct_sound cat k hk ht a b hkd r hr
+      · intro ⟨ma, mb⟩
+        exact knownDistinct_sound cat k hk ht b a hkd r hr ⟨mb, ma⟩
+    split at h
+    · -- enumerate b, look up in a
+      rename_i hcond
+      simp only [Bool.and_eq_true, Bool.not_eq_true', List.isEmpty_iff] at hcond
+      rintro ⟨ma, mb⟩
+      rw [memAlg_ranges_only cat b hnb' hcond.1 hcond.2] at mb
+      have := enum_false cat a b h r mb
+      rw [charIn_eq_memAlg cat a r ha hab, ma] at this
+      cases this
+    split at h
+    · rename_i hcond
+      simp only [Bool.and_eq_true, Bool.not_eq_true', List.isEmpty_iff] at hcond
+      rintro ⟨ma, mb⟩
+      rw [memAlg_ranges_only cat a hna' hcond.1 hcond.2] at ma
+      have := enum_false cat b a h r ma
+      rw [charIn_eq_memAlg cat b r hb hbb, mb] at this
+      cases this
+    · cases h
+
+/-- the toy oracle satisfies the facts; `\s` vs `\d` (known distinct), `[^abc]` vs `[abc]` (inverse), `[a-f]` vs
+`[g-k]` (enumeration) are declared disjoint; `[a-f]` vs `[f-k]` and `\w` vs `\d` are not -/
+example : OracleFacts toyCat (srcConsts 0 1 2) ∧
+    mayOverlap toyCat (srcConsts 0 1 2) (.leaf { cats := [(0, false)] }) (.leaf { cats := [(2, false)] }) = false ∧
+    mayOverlap toyCat (srcConsts 0 1 2) (.leaf { ranges := [(97, 99)], neg := true }) (.leaf { ranges := [(97, 99)] }) = false ∧
+    mayOverlap toyCat (srcConsts 0 1 2) (.leaf { ranges := [(97, 102)] }) (.leaf { ranges := [(103, 107)] }) = false ∧
+    mayOverlap toyCat (srcConsts 0 1 2) (.leaf { ranges := [(97, 102)] }) (.leaf { ranges := [(102, 107)] }) = true ∧
+    mayOverlap toyCat (srcConsts 0 1 2) (.leaf { cats := [(1, false)] }) (.leaf { cats := [(2, false)] }) = true := by
+  refine ⟨⟨?_, ?_, ?_, ?_, ?_, ?_⟩, by decide, by decide, by decide, by decide, by decide⟩
+  · intro r _ h; simp [toyCat, srcConsts] at h ⊢; omega
+  · intro r _ h; simp [toyCat, srcConsts] at h ⊢; omega
+  · intro r _ h
+    have : (fromOldString (srcConsts 0 1 2).ecmaSpace false).ranges = [(9, 13), (32, 32), (160, 160), (5760, 5760), (8192, 8202), (8232, 8233), (8239, 8239), (8287, 8287), (12288, 12288), (65279, 65279)] := by decide
+    rw [this] at h
+    simp [inRange] at h
+    simp [toyCat, srcConsts]; omega
+  · intro r _ h
+    have : (fromOldString (srcConsts 0 1 2).ecmaSpace false).ranges = [(9, 13), (32, 32), (160, 160), (5760, 5760), (8192, 8202), (8232, 8233), (8239, 8239), (8287, 8287), (12288, 12288), (65279, 65279)] := by decide
+    rw [this] at h
+    simp [inRange] at h
+    simp [toyCat, srcConsts]; omega
+  · intro r _ h
+    have : (fromOldString (srcConsts 0 1 2).ecmaWord false).ranges = [(48, 57), (65, 90), (95, 95), (97, 122)] := by decide
+    rw [this] at h
+    simp [inRange] at h
+    simp [toyCat, srcConsts]; omega
+  · intro r _ h
+    have : (fromOldString (srcConsts 0 1 2).ecmaDigit false).ranges = [(48, 57)] := by decide
+    rw [this] at h
+    simp [inRange] at h
+    simp [toyCat, srcConsts]; omega
+
+/-- **What `MayOverlap = true` means on the enumeration path: a common rune exists** (the answer is exact
+there, not merely conservative): both classes un-negated, not equal, no `anything` flag, not in the table,
+and `set2` without categories and subtraction. -/
+theorem mayOverlapByEnumeration_complete (cat : Nat → Nat → Bool) (a b : Class)
+    (ha : Class.RangesOk a) (hab : BitmapOk cat a) (hn : b.flat.neg = false) (hs : b.hasSub = false) (hc : b.flat.cats = [])
+    (h : mayOverlapByEnumeration cat a b = true) : ∃ r, memAlg cat a r = true ∧ memAlg cat b r = true := by
+  obtain ⟨ch, h1, h2⟩ := enum_true cat a b h
+  exact ⟨ch, by rw [← charIn_eq_memAlg cat a ch ha hab]; exact h2, by rw [memAlg_ranges_only cat b hn hs hc]; exact h1⟩
+
+example : mayOverlapByEnumeration toyCat (.leaf { cats := [(1, false)] }) (.leaf { ranges := [(90, 97)] }) = true := by decide
+
+/-- **`Equals` implies equal membership**, for every rune and every pair of classes (no precondition: the
+comparison is structural — `negate`, `anything`, ranges, categories, recursively the subtractor).  It is what
+`reduceConcatenationWithAdjacentLoops`, the writer's set table and `knownDistinctSets` rely on. -/
+theorem equals_spec (cat : Nat → Nat → Bool) (a b : Class) (h : a.equals b = true) (r : Nat) :
+    memAlg cat a r = memAlg cat b r :=
+  equalsGo_false_mem cat a b h r
+
+/-- **`equals(c2, ignoreNegate = true)`**: the two classes have the same positive part and equal
+subtractors; with equal `negate` they are the same set, with different `negate` the first is the complement
+of the second's head, minus the common subtractor — in particular they are disjoint. -/
+theorem equalsIgnoreNegate_spec (cat : Nat → Nat → Bool) (a b : Class) (h : Class.equalsGo a b true = true) (r : Nat) :
+    (a.flat.neg = b.flat.neg → memAlg cat a r = memAlg cat b r) ∧
+    (a.flat.neg ≠ b.flat.neg → memAlg cat a r = (!(b.flat.memAlg cat r) && !(b.subMem cat r))) := by
+  obtain ⟨_, _, h3, h4, _, h6⟩ := equalsGo_spec cat a b true h
+  have hp : a.flat.pos cat r = b.flat.pos cat r := by simp [Flat.pos, h3, h4]
+  rw [memAlg_split cat a, memAlg_split cat b, h6 r]
+  simp only [Flat.memAlg, hp]
+  constructor
+  · intro hn; rw [hn]
+  · intro hn
+    revert hn
+    cases a.flat.neg <;> cases b.flat.neg <;> simp
+
+example : Class.equalsGo (.minus { ranges := [(97, 122)], neg := true } (.leaf { ranges := [(101, 101)] }))
+      (.minus { ranges := [(97, 122)] } (.leaf { ranges := [(101, 101)] })) true = true ∧
+    (Class.leaf { ranges := [(97, 122)], neg := true }).equals (.leaf { ranges := [(97, 122)] }) = false ∧
+    -- a different subtractor is not ignored
+    Class.equalsGo (.minus { ranges := [(97, 122)], neg := true } (.leaf { ranges := [(101, 101)] }))
+      (.minus { ranges := [(97, 122)] } (.leaf { ranges := [(102, 102)] })) true = false := by decide
+
+/-- **`IsSingleton` ⇒ exactly one rune is a member, and it is `SingletonChar`.**  (`reduceSet` turns the set
+into `One`; the runner's `forwardcharnext` short-cut.) -/
+theorem isSingleton_spec (cat : Nat → Nat → Bool) (c : Class) (h : c.isSingleton = true) :
+    ∃ x, c.singletonChar = some x ∧ memAlg cat c x = true ∧ ∀ r, memAlg cat c r = true → r = x := by
+  obtain ⟨x, hx, hm⟩ := (singleton_reduce_mem cat c).1 h
+  exact ⟨x, hx, by simp [hm], fun r hr => by simpa [hm] using hr⟩
+
+/-- **`IsSingletonInverse` ⇒ exactly one rune is NOT a member, and it is `SingletonChar`** (`reduceSet` →
+`Notone`). -/
+theorem isSingletonInverse_spec (cat : Nat → Nat → Bool) (c : Class) (h : c.isSingletonInverse = true) :
+    ∃ x, c.singletonChar = some x ∧ memAlg cat c x = false ∧ ∀ r, memAlg cat c r = false → r = x := by
+  obtain ⟨x, hx, hm⟩ := (singleton_reduce_mem cat c).2 h
+  exact ⟨x, hx, by simp [hm], fun r hr => by simpa [hm] using hr⟩
+
+/-- **`SingletonChar` is defined whenever one of the two tests holds** (it indexes `ranges[0]` unguarded) and
+is then the first bound of the only range. -/
+theorem singletonChar_spec (c : Class) (h : c.isSingleton = true ∨ c.isSingletonInverse = true) :
+    ∃ x, c.singletonChar = some x ∧ c.flat.ranges = [(x, x)] := by
+  cases c with
+  | minus f s => simp [Class.isSingleton, Class.isSingletonInverse] at h
+  | leaf f =>
+    have : ∃ r, f.ranges = [r] ∧ r.1 = r.2 := by
+      rcases h with h | h <;>
+        (simp only [Class.isSingleton, Class.isSingletonInverse, Bool.and_eq_true] at h
+         obtain ⟨_, hr⟩ := h
+         match hf : f.ranges, hr with
+         | [r], hr => exact ⟨r, rfl, by simpa using hr⟩)
+    obtain ⟨r, h1, h2⟩ := this
+    refine ⟨r.1, by simp [Class.singletonChar, Class.flat, h1], ?_⟩
+    simp only [Class.flat, h1]
+    congr 1
+    exact Prod.ext rfl h2.symm
+
+example : (Class.leaf { ranges := [(65, 65)] }).isSingleton = true ∧ (Class.leaf { ranges := [(65, 65)] }).singletonChar = some 65 ∧
+    (Class.leaf { ranges := [(65, 66)] }).isSingleton = false ∧
+    (Class.minus { ranges := [(65, 65)] } (.leaf {})).isSingleton = false := by decide
+
+/-- **`IsEmpty` ⇒ no rune is a member — of the un-negated class** (membership of every rune is `negate`:
+a negated class without ranges, categories and subtraction matches everything).  `computeFirstCharClass`
+reads the flag as "no first character". -/
+theorem isEmpty_spec (cat : Nat → Nat → Bool) (c : Class) (h : c.isEmpty = true) (r : Nat) :
+    memAlg cat c r = c.isNegated := by
+  cases c with
+  | minus f s => simp [Class.isEmpty, Class.hasSub] at h
+  | leaf f =>
+    simp only [Class.isEmpty, Class.flat, Class.hasSub, Bool.and_eq_true, List.isEmpty_iff] at h
+    simp [memAlg, Flat.memAlg, Flat.pos, h.1.1, h.1.2, Class.isNegated, Class.flat]
+
+example : (Class.leaf {}).isEmpty = true ∧ (Class.leaf { neg := true }).isEmpty = true ∧
+    memAlg toyCat (Class.leaf { neg := true }) 5 = true := by decide
+
+/-- **`IsAnything` ⇒ every rune is a member — for an un-negated class without subtraction whose flag is
+truthful** (`AnyOk`: set only by `makeAnything` and `getCharSetFromOldString`, preserved by the building
+operations — `addSet_mem`, `caseEquiv_mem` take it as hypothesis).  The flag alone does not imply it: see the
+example (`[^\s\S]`); all callers use the flag conservatively (`MayOverlap` answers true, the prefix analysis
+drops the set). -/
+theorem isAnything_spec (cat : Nat → Nat → Bool) (c : Class) (h : c.isAnything = true) (hok : Class.AnyOk cat c)
+    (hn : c.isNegated = false) (hs : c.hasSubtraction = false) (r : Nat) (hr : r ≤ maxRune) :
+    memAlg cat c r = true := by
+  cases c with
+  | minus f s => simp [Class.hasSubtraction, Class.hasSub] at hs
+  | leaf f =>
+    simp only [Class.isAnything, Class.flat] at h
+    simp only [Class.isNegated, Class.flat] at hn
+    have := hok h r hr
+    simp [memAlg, Flat.memAlg, this, hn]
+
+/-- `[^\s\S]`: the base collapsed to `anything` while the class was parsed, `negate` stays: the flag is set
+and the class is empty -/
+example : (Class.leaf (({ neg := true } : Flat).addCategories [(0, false), (0, true)])).isAnything = true ∧
+    memAlg toyCat (Class.leaf (({ neg := true } : Flat).addCategories [(0, false), (0, true)])) 32 = false := by decide
+
+/-- **`IsMergeable` is what the alternation merge needs**: both classes un-negated and subtraction-free ⇒
+membership is the positive part alone, and `addSet` (what `reduceSingleLetterAndNestedAlternations` and the
+first-character analysis do with two mergeable classes) is exactly the union. -/
+theorem isMergeable_spec (cat : Nat → Nat → Bool) (a b : Class) (ha : a.isMergeable = true) (hb : b.isMergeable = true)
+    (hoa : a.flat.AnyOk cat) (hob : b.flat.AnyOk cat) (r : Nat) (hr : r ≤ maxRune) :
+    memAlg cat a r = a.flat.pos cat r ∧
+    memAlg cat (.leaf (a.flat.addSet cat false b.flat)) r = (memAlg cat a r || memAlg cat b r) := by
+  have key : ∀ c : Class, c.isMergeable = true → memAlg cat c r = c.flat.pos cat r ∧ c.flat.neg = false := by
+    intro c hc
+    simp only [Class.isMergeable, Class.isNegated, Class.hasSubtraction, Bool.and_eq_true, Bool.not_eq_true'] at hc
+    cases c with
+    | minus f s => simp [Class.hasSub] at hc
+    | leaf f =>
+      simp only [Class.flat] at hc
+      simp [memAlg, Flat.memAlg, Class.flat, hc.1]
+  obtain ⟨h1, h2⟩ := key a ha
+  obtain ⟨h3, _⟩ := key b hb
+  refine ⟨h1, ?_⟩
+  rw [h1, h3]
+  show (a.flat.addSet cat false b.flat).memAlg cat r = _
+  rw [Flat.addSet_mem cat false a.flat b.flat hoa hob r hr, h2]
+  simp
+
+example : (Class.leaf { ranges := [(97, 99)] }).isMergeable = true ∧ (Class.leaf { ranges := [(97, 99)], neg := true }).isMergeable = false ∧
+    (Class.minus { ranges := [(97, 99)] } (.leaf {})).isMergeable = false ∧
+    (({ ranges := [(97, 99)] } : Flat).addSet toyCat false { cats := [(2, false)] }) = { ranges := [(97, 99)], cats := [(2, false)] } := by decide
 
 end RegexVerif.Props.C16
